@@ -96,6 +96,13 @@ func projCheck(w *Worker, s string, origin string) {
 }
 
 func runC07(c *Ctx) {
+	// The exported marker constants are the ones the projections work with.
+	if string(redact.StartMarker()) != startM || string(redact.EndMarker()) != endM || string(redact.RedactedMarker()) != redactedM {
+		c.Violate("C07 marker-constants", "StartMarker/EndMarker/RedactedMarker are not the documented markers", map[string]string{"start_q": q(string(redact.StartMarker())), "end_q": q(string(redact.EndMarker())), "redacted_q": q(string(redact.RedactedMarker()))})
+	}
+	if got := string(redact.RedactableString(startM + "x" + endM).Redact()); got != string(redact.RedactedMarker()) {
+		c.Violate("C07 marker-constants", "Redact of one envelope gives "+q(got)+", RedactedMarker() is "+q(string(redact.RedactedMarker())), nil)
+	}
 	maxLen := int(c.pick(6, 8))
 	k := int64(len(c07alpha))
 	// Exhaustive part.
